@@ -111,6 +111,7 @@ int g_geom_ok;				/* sane geometry and no fast commit: the range statement R app
  * compared with every target of its assigns clause) */
 struct op_ghost {
 	int live;				/* buffers obtained and not yet released */
+	int used;				/* bit i: pool buffer i is handed out */
 	unsigned long bm_block;		/* last jbd2_journal_bmap: log offset asked, physical block answered */
 	unsigned long long bm_phys;
 	struct buffer_head *gbj_bh;		/* last getblk on the journal device: buffer, block number */
@@ -134,6 +135,7 @@ struct op_ghost {
 };
 struct op_ghost G;
 #define g_live G.live
+#define g_used G.used
 #define g_bm_block G.bm_block
 #define g_bm_phys G.bm_phys
 #define g_gbj_bh G.gbj_bh
@@ -156,9 +158,20 @@ struct op_ghost G;
 #define g_prev_last G.prev_last
 #define g_armed G.armed
 #define g_dirtied G.dirtied
-#define GHOSTS G
+#define GHOSTS G, POOL_FRAME
+#define GHOSTS_INNER G, __CPROVER_object_whole(POOL1), __CPROVER_object_whole(POOL2)	/* the tag loop does not touch the descriptor buffer */
 
 static journal_t J;			/* the journal of the harness */
+
+/*
+ * Buffer pool.  CBMC 6.11 does not allow malloc/free inside a loop that carries a loop contract, so the buffer layer of
+ * this unit hands out three buffers allocated by the harness (do_one_pass holds at most three at a time: descriptor, log
+ * block, target block), each exactly as big as getblk() makes them (+ slack, see above), holding arbitrary bytes (what
+ * the device holds / stale memory); brelse scrambles the byte the content statements look at, so that a use after
+ * release cannot go unnoticed by them.
+ */
+struct buffer_head *POOL0, *POOL1, *POOL2;
+#define POOL_FRAME __CPROVER_object_whole(POOL0), __CPROVER_object_whole(POOL1), __CPROVER_object_whole(POOL2)
 
 #define UB(p) ((const unsigned char *)(p))
 #define J_INC(j) SPEC_BE32(&(j)->j_superblock->s_feature_incompat)
@@ -225,18 +238,18 @@ static int calc_chksums(journal_t *journal, struct buffer_head *bh, unsigned lon
 	__CPROVER_loop_invariant(pass == PASS_SCAN || info->end_transaction == g_end0) \
 	__CPROVER_loop_invariant(info->start_transaction == g_start1) \
 	__CPROVER_loop_invariant(pass != PASS_REPLAY || !g_geom_ok || OP_INRANGE) \
-	__CPROVER_loop_invariant(g_live == 0 && g_armed == 0)
+	__CPROVER_loop_invariant(g_live == 0 && g_used == 0 && g_armed == 0)
 
 #define VERIF_INV_DO_ONE_PASS_TAGS \
 	__CPROVER_assigns(flags, tagp, __CPROVER_object_whole(&tag), obh, nbh, next_log_block, err, success, block_error, \
-			  __CPROVER_object_whole(info), GHOSTS) \
+			  __CPROVER_object_whole(info), GHOSTS_INNER) \
 	__CPROVER_loop_invariant(info->end_transaction == g_end0 && info->start_transaction == g_start1) \
 	__CPROVER_loop_invariant(__CPROVER_same_object(tagp, bh->b_data)) \
 	__CPROVER_loop_invariant(OP_OFF >= 12 && OP_OFF <= (long)journal->j_blocksize - descr_csum_size + 16) \
 	__CPROVER_loop_invariant(tag_bytes != 8 || (OP_OFF & 7) == 4) \
 	__CPROVER_loop_invariant(!g_geom_ok || OP_INRANGE) \
 	__CPROVER_loop_invariant(OP_OFF == 12 || g_prev_last == 0) \
-	__CPROVER_loop_invariant(g_live == 1 && g_armed == 0) \
+	__CPROVER_loop_invariant(g_live == 1 && g_used == 1 && bh == POOL0 && g_armed == 0) \
 	__CPROVER_decreases((long)journal->j_blocksize + 32 - OP_OFF)
 
 #define OP_T ((unsigned long long)spec_tag_bytes(journal->j_format_version, J_INC(journal)))
@@ -268,12 +281,13 @@ static int calc_chksums(journal_t *journal, struct buffer_head *bh, unsigned lon
 	CHECK(SPEC_BE32(bh->b_data) == SPEC_MAGIC && SPEC_BE32(bh->b_data + 4) == SPEC_BT_DESCRIPTOR, "W2: the tag comes from a descriptor block"); \
 	CHECK(SPEC_BE32(bh->b_data + 8) == next_commit_ID, "W2: of the transaction being replayed (h_sequence == next_commit_ID)"); \
 	CHECK(!spec_tid_geq(next_commit_ID, info->end_transaction), "W2: which lies before end_transaction"); \
-	CHECK(g_gbf_bh == nbh && nbh != obh && nbh != bh, "W3: the buffer was obtained from the filesystem device"); \
+	CHECK(g_gbf_bh == nbh && nbh == POOL2 && obh == POOL1 && bh == POOL0, "W3: the buffer was obtained from the filesystem device"); \
 	CHECK(g_gbf_blocknr == spec_tag_block(journal->j_format_version, J_INC(journal), OP_RAWTAG), \
 	      "W3: target block number == big-endian block number of the raw tag (high word iff 64BIT)"); \
 	CHECK(g_tr_blocknr == g_gbf_blocknr && g_tr_seq == next_commit_ID && g_tr_ret == 0, "W4: test_revoke(block, next_commit_ID) said not revoked"); \
 	CHECK(!J_CSUM23(journal) || OP_TAGCSUM_OK, "W5: the tag checksum over (next_commit_ID, this log block) equals the one stored in the raw tag"); \
-	CHECK(g_gbj_bh == obh && g_rd_bh == obh && g_gbj_blocknr == g_bm_phys && g_bm_block == io_block, "W6: the log block was read from log offset io_block"); \
+	CHECK(g_gbj_bh == obh && g_rd_bh == obh && g_gbj_blocknr == g_bm_phys && g_bm_block == (unsigned int)io_block && (!g_geom_ok || g_bm_block == io_block), \
+	      "W6: the log block was read from log offset io_block (jread takes a 32-bit offset)"); \
 	CHECK(UB(nbh->b_data)[verif_mc_k] == (((OP_RAWFLAGS & SPEC_FLAG_ESCAPE) && verif_mc_k < 4) ? spec_magic_byte(verif_mc_k) : UB(obh->b_data)[verif_mc_k]), \
 	      "W7: written bytes == logged bytes, first four bytes == JBD2 magic iff ESCAPE"); \
 	CHECK(UB(obh->b_data)[verif_mc_k] == g_rd_byte, "W7: the log block itself is not modified"); \
@@ -286,7 +300,7 @@ static int calc_chksums(journal_t *journal, struct buffer_head *bh, unsigned lon
 	      "T: stride is tag_bytes, plus a 16-byte uuid unless SAME_UUID"); \
 	CHECK(g_geom_ok ? next_log_block == SPEC_WRAP(journal, io_block + 1) : 1, "T: exactly one log block is consumed per tag, with wrap at j_last"); \
 	CHECK(flags == (int)OP_RAWFLAGS, "T: flags are the big-endian flags of the raw tag"); \
-	CHECK(g_live == 1 && g_armed == 0, "B: data and target buffers released, descriptor still held"); \
+	CHECK(g_live == 1 && g_used == 1 && g_armed == 0, "B: data and target buffers released, descriptor still held"); \
 	g_prev_last = (OP_RAWFLAGS & SPEC_FLAG_LAST_TAG) != 0; \
 	}
 
@@ -352,7 +366,6 @@ int jbd2_journal_bmap(journal_t *journal, unsigned long block, unsigned long lon
 	g_bm_block = block; g_bm_phys = p;
 	return err;
 }
-struct op_buf { struct buffer_head bh; char slack[VERIF_BH_SLACK]; };
 struct buffer_head *getblk(kdev_t kdev, unsigned long long blocknr, int blocksize)
 {
 	int fail;		/* arbitrary */
@@ -361,20 +374,25 @@ struct buffer_head *getblk(kdev_t kdev, unsigned long long blocknr, int blocksiz
 	CHECK(kdev != J.j_fs_dev || g_pass == PASS_REPLAY, "W1: filesystem buffers are only obtained in PASS_REPLAY");
 	CHECK((unsigned long)blocksize == J_BS(&J), "buffers are j_blocksize big");
 	if (fail)
-		return 0;
-#ifdef X_TYPED
-	bh = malloc(sizeof(struct op_buf));
-#elif defined(X_BIG)
-	bh = malloc(BH_HDR + 4096 + X_BIG);
-#else
-	bh = malloc(BH_SIZE(&J));	/* arbitrary contents: what the device holds */
-#endif
-	if (!bh)
-		return 0;
+		return 0;	/* out of memory */
+	/* journal device: POOL0, else POOL1; filesystem device: POOL2 */
+	if (kdev == J.j_dev) {
+		CHECK((g_used & 3) != 3, "B: at most two journal buffers are held at a time");
+		if (!(g_used & 1)) { bh = POOL0; g_used |= 1; }
+		else if (!(g_used & 2)) { bh = POOL1; g_used |= 2; }
+		else return 0;
+	} else {
+		CHECK(!(g_used & 4), "B: at most one filesystem buffer is held at a time");
+		if (g_used & 4) return 0;
+		bh = POOL2; g_used |= 4;
+	}
+	/* contents: arbitrary.  The pool buffers hold arbitrary bytes from the start, every loop cut makes them arbitrary
+	 * again, brelse scrambles the byte the content statements look at, and a buffer is handed out at most once per
+	 * iteration of the loop it lives in -- so nothing needs to be written here */
 	/* the flag / bookkeeping fields of struct buffer_head are never touched by recovery.c itself (only b_data is, and
 	 * b_size in calc_chksums, replaced): this buffer layer keeps them in ghost state (dirty: g_dirtied, uptodate: g_rd_bh /
-	 * g_upd_bh, block number: g_gb?_blocknr) -- bit-field updates inside a byte-array object are very costly to encode */
-	/* ... and a buffer fresh from getblk is neither uptodate nor dirty (both front ends allocate it zero-filled) */
+	 * g_upd_bh, block number: g_gb?_blocknr) -- bit-field updates inside a byte-array object are very costly to encode.
+	 * A buffer fresh from getblk is neither uptodate nor dirty (both front ends allocate it zero-filled) */
 	if (g_rd_bh == bh) g_rd_bh = 0;
 	if (g_upd_bh == bh) g_upd_bh = 0;
 	if (g_dirtied == bh) g_dirtied = 0;
@@ -410,11 +428,11 @@ void mark_buffer_uptodate(struct buffer_head *bh, int val)
 void brelse(struct buffer_head *bh)
 {
 	CHECK(bh != 0 && g_live >= 1, "B: brelse of a live buffer");
+	CHECK((bh == POOL0 && (g_used & 1)) || (bh == POOL1 && (g_used & 2)) || (bh == POOL2 && (g_used & 4)), "B: brelse of a buffer that is held (no double release)");
 	/* a dirty buffer is written out by brelse; the only way to dirty one is mark_buffer_dirty above */
+	if (bh == POOL0) g_used &= ~1; else if (bh == POOL1) g_used &= ~2; else g_used &= ~4;
 	g_live--;
-#ifndef X_NOFREE
-	free(bh);
-#endif
+	{ unsigned char junk; ((unsigned char *)bh->b_data)[verif_mc_k] = junk; }	/* released: contents gone (at the byte the content statements look at) */
 }
 int jbd2_journal_test_revoke(journal_t *journal, unsigned long long blocknr, tid_t sequence)
 {
@@ -440,15 +458,15 @@ static int do_one_pass(journal_t *journal, struct recovery_info *info, enum pass
 		 journal->j_blocksize == 8192 || journal->j_blocksize == 16384 || journal->j_blocksize == 32768 ||
 		 journal->j_blocksize == 65536)
 	REQUIRES(pass == PASS_SCAN || pass == PASS_REVOKE || pass == PASS_REPLAY)
-	REQUIRES(g_pass == pass && g_end0 == info->end_transaction && g_live == 0 && g_armed == 0 && verif_mc_k < J_BS(journal))
+	REQUIRES(g_pass == pass && g_end0 == info->end_transaction && g_live == 0 && g_used == 0 && g_armed == 0 && verif_mc_k < J_BS(journal))
+	REQUIRES(g_start1 == (pass == PASS_SCAN ? SPEC_BE32(&journal->j_superblock->s_sequence) : info->start_transaction))
 	REQUIRES(g_geom_ok == (!SPEC_HAS(journal->j_format_version, J_INC(journal), SPEC_INCOMPAT_FAST_COMMIT) &&
 			       journal->j_first <= SPEC_BE32(&journal->j_superblock->s_start) &&
 			       SPEC_BE32(&journal->j_superblock->s_start) < journal->j_last))
-	ASSIGNS(info->start_transaction, info->end_transaction, info->nr_replays, info->nr_revokes, info->nr_revoke_hits,
-		journal->j_failed_commit, GHOSTS)
+	ASSIGNS(__CPROVER_object_whole(info), journal->j_failed_commit, GHOSTS)
 	ENSURES(pass == PASS_SCAN || (info->end_transaction == OLD(info->end_transaction) && info->start_transaction == OLD(info->start_transaction)))
 	ENSURES(pass != PASS_SCAN || info->start_transaction == SPEC_BE32(&journal->j_superblock->s_sequence))
-	ENSURES(g_live == 0 && g_armed == 0);
+	ENSURES(g_live == 0 && g_used == 0 && g_armed == 0);
 
 static journal_superblock_t JSB;
 static struct kdev_s DEV_J, DEV_FS;
@@ -481,6 +499,8 @@ void h_one_pass(void)
 	JSB.s_sequence = ext2fs_cpu_to_be32(IN.s_sequence);
 	JSB.s_start = ext2fs_cpu_to_be32(IN.s_start);
 	J.j_first = IN.j_first; J.j_last = IN.j_last; J.j_fc_first = IN.j_fc_first; J.j_fc_last = IN.j_fc_last;
+	/* loaded from big-endian 32-bit superblock fields by the journal load routines */
+	ASSUME(IN.j_first <= 0xffffffffUL && IN.j_last <= 0xffffffffUL && IN.j_fc_first <= 0x100000000UL && IN.j_fc_last <= 0xffffffffUL);
 	J.j_total_len = IN.j_total_len;
 	J.j_dev = &DEV_J; J.j_fs_dev = &DEV_FS;
 	DEV_J.k_dev = K_DEV_JOURNAL; DEV_FS.k_dev = K_DEV_FS;
@@ -493,12 +513,14 @@ void h_one_pass(void)
 	g_pass = IN.pass;
 	g_end0 = IN.end_transaction;
 	g_start1 = (IN.pass == PASS_SCAN) ? IN.s_sequence : IN.start_transaction;
-	g_live = 0; g_armed = 0; g_dirtied = 0; g_prev_last = 0;
+	g_live = 0; g_used = 0; g_armed = 0; g_dirtied = 0; g_prev_last = 0;
+	POOL0 = malloc(BH_SIZE(&J)); POOL1 = malloc(BH_SIZE(&J)); POOL2 = malloc(BH_SIZE(&J));
+	ASSUME(POOL0 && POOL1 && POOL2);
 	g_geom_ok = !SPEC_HAS(IN.format_version, IN.incompat, SPEC_INCOMPAT_FAST_COMMIT) && IN.j_first <= IN.s_start && IN.s_start < IN.j_last;
 
 	int r = do_one_pass(&J, &INFO, IN.pass);
 
-	CHECK(g_live == 0, "B: every buffer obtained by the pass was released");
+	CHECK(g_live == 0 && g_used == 0, "B: every buffer obtained by the pass was released");
 	if (IN.pass == PASS_SCAN) {
 		CHECK(INFO.start_transaction == IN.s_sequence, "E: SCAN starts at the superblock's s_sequence");
 		REACH("scan");
